@@ -55,7 +55,9 @@ def povm_mats(sysname):
         noisy_z = [0.9 * z0 + 0.1 * z1 + 0.05j * (np.array([[0, 1], [-1, 0]])), None]
         noisy_z[1] = np.eye(2) - noisy_z[0]
         unbal = [np.diag([0.8, 0.1]).astype(complex), np.diag([0.2, 0.9]).astype(complex)]     # elements of unequal trace
-        return [[x0, x1], [y0, y1], [z0, z1], trine, sic, noisy_z, unbal]
+        # three 3-outcome POVMs (one per axis) whose elements have unequal traces 0.5, 0.3, 1.2: outcome count != dimension
+        uneven3 = [[0.5 * a0, 0.3 * a1, np.eye(2) - 0.5 * a0 - 0.3 * a1] for a0, a1 in ((x0, x1), (y0, y1), (z0, z1))]
+        return [[x0, x1], [y0, y1], [z0, z1], trine, sic, noisy_z, unbal] + uneven3
     if sysname == "T1":
         out = []
         for P in state_mats("T1"):
@@ -104,10 +106,10 @@ DEFAULT = {
 }
 # mixed outcome counts (2,2,3,4) and an over-complete set
 MIXED = {
-    ("qst", "Q1"): dict(povms=[0, 1, 3, 4]), ("qst", "T1"): dict(povms=list(range(10))),
-    ("qpt", "Q1"): dict(states=[0, 1, 2, 3, 4], povms=[0, 1, 2, 3]),
+    ("qst", "Q1"): dict(povms=[0, 1, 3, 4, 6, 7]), ("qst", "T1"): dict(povms=list(range(10))),
+    ("qpt", "Q1"): dict(states=[0, 1, 2, 3, 4], povms=[0, 6, 2, 3, 8]),
     ("povmt", "Q1"): dict(states=[0, 1, 2, 3, 4]),
-    ("qmpt", "Q1"): dict(states=[0, 1, 2, 3], povms=[0, 1, 3]),
+    ("qmpt", "Q1"): dict(states=[0, 1, 2, 3], povms=[0, 6, 3, 9]),
 }
 
 
